@@ -247,11 +247,14 @@ def run_batches(scripts, tag, timeout=120, env=None):
         e = dict(os.environ)
         e.setdefault("ASAN_OPTIONS", "detect_leaks=1:abort_on_error=0:exitcode=99:allocator_may_return_null=1:max_allocation_size_mb=2048")
         e.setdefault("UBSAN_OPTIONS", "print_stacktrace=0:halt_on_error=0")
+        e.setdefault("SFD_BUDGET", "20")
         if env:
             e.update(env)
         try:
             p = subprocess.run([h, sp], stdout=subprocess.PIPE, stderr=subprocess.PIPE, timeout=to, env=e)
             rc, out, err = p.returncode, p.stdout.decode("utf8", "replace"), p.stderr.decode("utf8", "replace")
+            if rc == -14:
+                rc, err = 124, err + "\n[per-call time budget of %s s exceeded: SIGALRM]" % e.get("SFD_BUDGET")
         except subprocess.TimeoutExpired as ex:
             rc, out, err = 124, (ex.stdout or b"").decode("utf8", "replace"), "[timeout after %ds]" % to
         os.unlink(sp)
@@ -262,18 +265,40 @@ def run_batches(scripts, tag, timeout=120, env=None):
                 lines[pr[0]] = (pr[1], pr[2], l)
         return rc, lines, err, offsets
 
+    def settle(gi, grp, to, depth=0):
+        """results of one group; on a crash / hang only the script that was running is re-run alone and the rest of the group continues as a new group"""
+        rc, lines, err, offsets = run_group(gi, grp, to)
+        if rc == 0:
+            return [(name, 0, {k - a + 1: v for k, v in lines.items() if a <= k <= b}, "") for (name, a, b) in offsets]
+        complete = 0
+        for (name, a, b) in offsets:
+            if b in lines:
+                complete += 1
+            else:
+                break
+        out = []
+        if complete == len(grp):
+            # every line was printed: the failure was reported at exit (LeakSanitizer): isolate each script
+            for i, (name, ls) in enumerate(grp):
+                if len(grp) == 1:
+                    out.append((name, rc, {k: v for k, v in lines.items()}, err))
+                else:
+                    rc1, lines1, err1, _ = run_group(100000 + gi * 1000 + i, [(name, ls)], max(20, to // 3))
+                    out.append((name, rc1, lines1, err1))
+            return out
+        for (name, a, b) in offsets[:complete]:
+            out.append((name, 0, {k - a + 1: v for k, v in lines.items() if a <= k <= b}, ""))
+        # the script that was running when the process died (crash, sanitizer abort, time budget) is the first incomplete one
+        name, a, b = offsets[complete]
+        out.append((name, rc, {k - a + 1: v for k, v in lines.items() if a <= k <= b}, err))
+        rest = grp[complete + 1:]
+        if rest:
+            out += settle(300000 + gi * 1000 + complete + depth * 100, rest, to, depth + 1)
+        return out
+
     results = []
     with concurrent.futures.ThreadPoolExecutor(max_workers=vlib.NCPU) as ex:
-        futs = {ex.submit(run_group, gi, grp, timeout): (gi, grp) for gi, grp in enumerate(groups)}
+        futs = [ex.submit(settle, gi, grp, timeout) for gi, grp in enumerate(groups)]
         for fu in concurrent.futures.as_completed(futs):
-            gi, grp = futs[fu]
-            rc, lines, err, offsets = fu.result()
-            if rc == 0:
-                for (name, a, b) in offsets:
-                    results.append((name, 0, {k - a + 1: v for k, v in lines.items() if a <= k <= b}, ""))
-            else:
-                # isolate: run each script of the batch alone
-                for i, (name, ls) in enumerate(grp):
-                    rc1, lines1, err1, _ = run_group(100000 + gi * 1000 + i, [(name, ls)], max(20, timeout // 3))
-                    results.append((name, rc1, lines1, err1))
+            results += fu.result()
     return results
